@@ -37,7 +37,13 @@ Fifth output, lean/Nstd/Generated/ArgsDmn.lean: `Process::daemonize(const String
 Sixth output, lean/Nstd/Generated/ArgsVec.lean: a FRAGMENT translation -- the statement behind `const char** args;` ("prepare argv of child") in
 `Process::start(program, argc, argv, environment)` and in `Process::open(executable, argc, argv, streams, environment)` (pointer vectors of
 lean/Nstd/Args/CSemVec.lean: `argv[i]`, `args[i] = ..`, `(const char**)alloca(sizeof(const char*) * n)`); lean/Nstd/Args/PropsVec.lean proves
-both equal to `prepareArgv`.  The rest of these two functions is not translated.
+both equal to `prepareArgv`.
+
+Seventh output, lean/Nstd/Generated/ArgsFds.lean: three more FRAGMENTS of `open(executable, argc, argv, streams, environment)`: the parent branch
+`else if (r != 0) { .. }` behind `vfork()`, the child branch up to `if (execvpe(`, the statements behind the label `error:` (the `int ..Fds[2]` arrays
+are two fields each; `::close` / `dup2` act on the descriptor table of Kernel.lean, lean/Nstd/Args/CSemFds.lean); lean/Nstd/Args/PropsOpen.lean proves
+them equal to the components of `Kernel.openFds` / `Kernel.openFdsFailed`.  Not translated: the `pipe()` calls with their `goto error`, the
+environment preparation, `vfork()` / `execvpe` themselves, and the whole of `start(commandLine)`, `wait`, `interrupt`.
 
 Anything outside the understood subset is REFUSED (exception -> the check reports a broken tie).
 
@@ -66,6 +72,7 @@ OUT_SEL = VERIF / "lean" / "Nstd" / "Generated" / "ArgsSel.lean"
 OUT_STR = VERIF / "lean" / "Nstd" / "Generated" / "ArgsStr.lean"
 OUT_DMN = VERIF / "lean" / "Nstd" / "Generated" / "ArgsDmn.lean"
 OUT_VEC = VERIF / "lean" / "Nstd" / "Generated" / "ArgsVec.lean"
+OUT_FDS = VERIF / "lean" / "Nstd" / "Generated" / "ArgsFds.lean"
 
 
 class Refuse(Exception):
@@ -617,6 +624,7 @@ class Fn:
         self.members = set(members)
         self.proc = False                                      # the Process-object functions: syscalls, casts, errno
         self.sel = False                                       # read(buffer, length, streams): fd_set, select, ::read on a pipe
+        self.fdsmode = False                                   # fragments of open(): descriptor table ghost, int fds[2] arrays as two fields
         self.vecmode = False                                   # the "prepare argv of child" block: pointer vectors
         self.envfn = False                                     # getEnvironmentVariable: `const char*` = null | the value of a variable
         self.dmn = False                                       # daemonize: descriptor table ghost, ::open, dup2, fork, setsid, exit
@@ -805,6 +813,11 @@ class Fn:
                     raise Refuse(f"{self.name}: `{ta} {op} {tb}`")
                 return self.cexpr(b, kb)
             return self.cexpr(a, ka)
+        if (kind == "index" and self.fdsmode and e[1][0] == "var" and e[2][0] == "num" and e[2][1] in (0, 1)
+                and f"{e[1][1]}{e[2][1]}" in self.vars):
+            nm = f"{e[1][1]}{e[2][1]}"
+            self.reads.add(nm)
+            return k(self.vars[nm], f"s.{fld(nm)}")
         if kind == "index" and self.vecmode and e[1][0] == "var" and self.vars.get(e[1][1]) == "vec":
             def ki(ti, xi):
                 if ti not in ("int", "intlit"):
@@ -1195,7 +1208,7 @@ class Fn:
             raise Refuse(f"{self.name}: method `{m}` of a {ty}")
         if kind == "call" and self.proc:
             name, args = e[1], e[2]
-            if name == "::close" and len(args) == 1 and not self.dmn:
+            if name == "::close" and len(args) == 1 and not self.dmn and not self.fdsmode:
                 def k1(t1, x1):
                     if t1 != "int":
                         raise Refuse(f"{self.name}: ::close({t1})")
@@ -1219,6 +1232,19 @@ class Fn:
                 if cname == "setsid" and not cargs:
                     return self.update("sid", "true", lambda: k.text)
                 raise Refuse(f"{self.name}: VERIFY({cname}(..) != -1)")
+            if self.fdsmode and name == "::close" and len(args) == 1:
+                def k1(t1, x1):
+                    if t1 != "fd":
+                        raise Refuse(f"{self.name}: ::close({t1})")
+                    return self.update("tbl", f"fdClose {x1} s.tbl", lambda: k.text)
+                return self.cexpr(args[0], k1)
+            if (self.fdsmode and name == "dup2" and len(args) == 2 and args[1][0] == "var"
+                    and args[1][1] in ("STDOUT_FILENO", "STDERR_FILENO", "STDIN_FILENO")):
+                def k1(t1, x1):
+                    if t1 != "fd":
+                        raise Refuse(f"{self.name}: dup2({t1}, ..)")
+                    return self.update("tbl", f"fdDup2 {x1} {args[1][1]} s.tbl", lambda: k.text)
+                return self.cexpr(args[0], k1)
             if self.dmn and name == "::close" and len(args) == 1:
                 def k1(t1, x1):
                     if t1 != "int":
@@ -1667,6 +1693,67 @@ def generate_vec(repo):
     return "\n".join(out)
 
 
+def generate_fds(repo):
+    """fragments of Process::open(executable, argc, argv, streams, environment): the parent branch behind vfork(), the child branch up to
+    execvpe, the `error:` path"""
+    cpp = posix_branch(scan((Path(repo) / "src/Process.cpp").read_text()))
+    sig = ["bool", "Process", "::", "open", "(", "const", "String", "&", "executable", ",", "int", "argc", ",", "char", "*",
+           "const", "argv", "[", "]", ",", "uint", "streams", ",", "const", "Map", "<", "String", ",", "String", ">", "&", "environment", ")"]
+    body = find_body(cpp, sig, "Process::open(executable, argc, argv, streams, environment)")
+    texts = [t[1] if t[0] in ("id", "op") else str(t[1]) if t[0] == "num" else None for t in body]
+
+    def find(pat, what):
+        hits = [i for i in range(len(texts) - len(pat) + 1) if texts[i:i + len(pat)] == pat]
+        if len(hits) != 1:
+            raise Refuse(f"open(): {what}: found {len(hits)} times")
+        return hits[0]
+    for arr in ("stdoutFds", "stderrFds", "stdinFds"):
+        find(["int", arr, "[", "2", "]", "=", "{", "}", ";"], f"`int {arr}[2] = {{}};`")
+    find(["int", "r", "=", "vfork", "(", ")", ";", "if", "(", "r", "==", "-", "1", ")", "goto", "error", ";", "else", "if", "(", "r", "!=", "0", ")"],
+         "`int r = vfork(); if (r == -1) goto error; else if (r != 0)`")
+    ip = find(["else", "if", "(", "r", "!=", "0", ")"], "the parent branch") + 7
+    pp = Parser(list(body[ip:]), "openParent")
+    parent = pp.stmt()
+    if parent[0] != "block" or not (ip + pp.i < len(texts) and texts[ip + pp.i] == "else" and texts[ip + pp.i + 1] == "{"):
+        raise Refuse("open(): the parent branch is not a block followed by `else {`")
+    ic = ip + pp.i + 2
+    ie = find(["if", "(", "execvpe", "("], "`if (execvpe(`")
+    child = Parser(list(body[ic:ie]), "openChild").stmts()
+    il = find(["error", ":"], "the label `error:`") + 2
+    errp = Parser(list(body[il:]), "openError")
+    error = errp.stmts()
+    if errp.peek()[0] is not None:
+        raise Refuse("open(): trailing tokens behind the error path")
+    vars_ = {"fdStdOutRead": "fd", "fdStdErrRead": "fd", "fdStdInWrite": "fd", "pid": "usize", "r": "usize",
+             "stdoutFds0": "fd", "stdoutFds1": "fd", "stderrFds0": "fd", "stderrFds1": "fd", "stdinFds0": "fd", "stdinFds1": "fd",
+             "errno": "int", "tbl": "fdtable"}
+    out = ["/- generated by tools/gen_args.py from src/Process.cpp — do not edit -/", "import Nstd.Args.CSemFds", "",
+           "set_option linter.unusedVariables false", "", "namespace Nstd.Args.GenF", "open Nstd.Args Nstd.Args.C", ""]
+    allvars = None
+    defs = []
+    for name, ret, frag, doc in (("openParent", "bool", [parent], "the parent branch `else if (r != 0) { .. }` behind `vfork()`"),
+                                 ("openChild", "void", child, "the child branch `else { .. ` up to `if (execvpe(`"),
+                                 ("openError", "bool", error, "the path behind the label `error:`")):
+        f = Fn(name, "FS", ret, vars_, {}, {}, False, ["fdStdOutRead", "fdStdErrRead", "fdStdInWrite", "pid"])
+        f.proc = f.fdsmode = True
+        frag = rename_locals(frag, ["err"], name) if name == "openError" else frag
+        blocks = f.function(frag, doc + " in `Process::open(executable, argc, argv, streams, environment)`")
+        extra = {k: v for k, v in f.vars.items() if k not in vars_}
+        if name == "openError":
+            if extra != {"err": "usize"} and extra != {"err": "int"}:
+                raise Refuse(f"open(): error path: unexpected locals {sorted(extra)}")
+        elif extra:
+            raise Refuse(f"open(): {name}: unexpected locals {sorted(extra)}")
+        defs.append("\n\n".join(blocks))
+    fvars = dict(vars_)
+    fvars["err"] = "int"
+    out += ["/-- the members, `r` (what `vfork()` returned in the parent), the three `int ..Fds[2]` arrays (two fields each), `errno`, `err`,\n"
+            "    the descriptor table (ghost) -/",
+            "structure FS where\n" + "".join(f"  {fld(v)} : {LEAN_TYPE[t]}\n" for v, t in fvars.items()), "\n\n".join(defs), "",
+            "end Nstd.Args.GenF", ""]
+    return "\n".join(out)
+
+
 def generate_sel(repo):
     """ssize Process::read(void* buffer, usize length, uint& streams) (POSIX branch)"""
     cpp = posix_branch(scan((Path(repo) / "src/Process.cpp").read_text()))
@@ -1713,19 +1800,20 @@ def run(repo=None):
         gtext = generate_str(repo)
         dtext = generate_dmn(repo)
         vtext = generate_vec(repo)
+        ftext = generate_fds(repo)
     except (Refuse, OSError, IndexError) as ex:
         return False, f"tools/gen_args.py refuses the current Process.cpp / Process.hpp / String.hpp (broken tie): {ex}"
     OUT.parent.mkdir(parents=True, exist_ok=True)
-    for out, t in ((OUT, text), (OUT_PROC, ptext), (OUT_SEL, stext), (OUT_STR, gtext), (OUT_DMN, dtext), (OUT_VEC, vtext)):
+    for out, t in ((OUT, text), (OUT_PROC, ptext), (OUT_SEL, stext), (OUT_STR, gtext), (OUT_DMN, dtext), (OUT_VEC, vtext), (OUT_FDS, ftext)):
         if not out.exists() or out.read_text() != t:
             out.write_text(t)
-    return True, hashlib.sha1((text + ptext + stext + gtext + dtext + vtext).encode()).hexdigest()[:12]
+    return True, hashlib.sha1((text + ptext + stext + gtext + dtext + vtext + ftext).encode()).hexdigest()[:12]
 
 
 def stats():
     """what the three generated files contain (evidence)"""
     out = {}
-    for f in (OUT, OUT_PROC, OUT_SEL, OUT_STR, OUT_DMN, OUT_VEC):
+    for f in (OUT, OUT_PROC, OUT_SEL, OUT_STR, OUT_DMN, OUT_VEC, OUT_FDS):
         if f.exists():
             t = f.read_text()
             out[f.name] = {"definitions": len(re.findall(r"(?m)^def ", t)), "loops": len(re.findall(r"(?m)^def \w+_loop\d+ ", t)),
@@ -1741,9 +1829,10 @@ def gen(ctx):
                                             "close(uint)", "exit", "read(buffer, len)", "write", "setEnvironmentVariable", "getEnvironmentVariable",
                                             "read(buffer, length, streams)", "String::length", "String::find(const char*, char)",
                                             "String::compare(const char*, const char*, usize)", "daemonize",
-                                            "the 'prepare argv of child' statement of start(program, argc, argv, env) and open(executable, argc, argv, streams, env)"]}
+                                            "the 'prepare argv of child' statement of start(program, argc, argv, env) and open(executable, argc, argv, streams, env)",
+                                            "open(): the parent branch behind vfork(), the child branch up to execvpe, the error: path"]}
     if ok:
-        ctx.notes.append(f"translator: Nstd/Generated/ArgsCode.lean, ArgsProc.lean, ArgsSel.lean, ArgsStr.lean, ArgsDmn.lean, ArgsVec.lean regenerated from the current Process.cpp / Process.hpp / String.hpp (sha1 {msg})")
+        ctx.notes.append(f"translator: Nstd/Generated/ArgsCode.lean, ArgsProc.lean, ArgsSel.lean, ArgsStr.lean, ArgsDmn.lean, ArgsVec.lean, ArgsFds.lean regenerated from the current Process.cpp / Process.hpp / String.hpp (sha1 {msg})")
     return ok, msg
 
 
